@@ -65,6 +65,7 @@ fn main() {
         "C05" => props::c05::run_c05(&cx),
         "C09" => props::c05::run_c09(&cx),
         "C07" => props::c07::run_c07(&cx),
+        "C19" => props::c19::run_c19(&cx),
         "C06" => props::c06::run_c06(&cx),
         "C18" => props::c18::run_c18(&cx),
         "C20" => props::c20::run_c20(&cx),
